@@ -361,8 +361,19 @@ func moreReads(cfg *ucfg.Config, k string, want interface{}, opts []ucfg.Option,
 		if e := noCycle("Unpack into a []string field", err); e != nil {
 			return e
 		}
-		// (whether text that parses into a list can be unpacked into a typed list through more than one reference is
-		// not stated: only the absence of a false cycle is asserted)
+		// a list reached through any number of references is a list: its elements arrive one by one
+		gtyp := reflect.StructOf([]reflect.StructField{{Name: "V", Type: reflect.TypeOf([]interface{}(nil)), Tag: reflect.StructTag(fmt.Sprintf(`config:"%s"`, k))}})
+		gout := reflect.New(gtyp)
+		gerr := uc.Safe("Unpack", func() error { return cfg.Unpack(gout.Interface(), opts...) })
+		if e := noCycle("Unpack into a []interface{} field", gerr); e != nil {
+			return e
+		}
+		if gerr != nil {
+			return fmt.Errorf("field %q evaluates to the list %s, but unpacking it into a []interface{} field failed: %v", k, canon.Show(want), gerr)
+		}
+		if got := gout.Elem().Field(0).Interface(); !canon.EqualData(got, want) {
+			return fmt.Errorf("field %q evaluates to the list %s, but a []interface{} field receives %s", k, canon.Show(want), canon.Show(got))
+		}
 		var ai [2]interface{}
 		aout := reflect.New(reflect.StructOf([]reflect.StructField{{Name: "V", Type: reflect.TypeOf(ai), Tag: reflect.StructTag(fmt.Sprintf(`config:"%s"`, k))}}))
 		err = uc.Safe("Unpack", func() error { return cfg.Unpack(aout.Interface(), opts...) })
